@@ -28,8 +28,11 @@ PROPS = {
         level="model_checking",
         technique="stateless model checking of the verbatim Mutex sources under a controlled scheduler: all schedules within preemption/deviation bounds (CHESS-style iterative context bounding), happens-before race detection",
         steps=[_s("h-sync", "c01"), _s("h-sync", "futexconf"), _s("h-sync", "traits-c01"),
+               _s("h-sync", "c01", profile="nochk", name="c01-nochk", args=["--lite"]),
+               _s("h-sync", "c01", bin="h-sync-feat", features=["allfeat"], name="c01-all-tiny-std-features", args=["--lite"]),
                _s("h-sync", "c01", bin="h-sync-wide", features=["wide"], name="c01-many-threads")],
         assumptions=["SC interleavings + C11 release/acquire happens-before (vector clocks); W-bounded stale reads only in the thorough tier",
+                     "the same programs (cheaper half of the budgets) are explored in a second build profile without debug assertions / overflow checks and in a build with every tiny-std cargo feature name switched on (the sources are compiled verbatim inside the harness crate, so cfg(feature) gates in them see the harness crate's features)",
                      "the futex model (wait compares atomically, wake picks any waiter, spurious returns) stands in for the kernel; bound by the futexconf step",
                      "bounds: <=4 (thorough 5) threads with <=2 (3) ops per thread under full preemption/deviation budgets as listed in coverage.bounds",
                      "many-thread step: one holder plus 65/70 parked threads, canonical schedule and every single departure from it only (wake counts / batch sizes that need dozens of parked threads)"],
@@ -38,20 +41,22 @@ PROPS = {
         level="model_checking",
         technique="stateless model checking of the verbatim RwLock sources under a controlled scheduler: all schedules within preemption/deviation bounds, every wake target and hand-off branch, happens-before race detection",
         steps=[_s("h-sync", "c02"), _s("h-sync", "futexconf"), _s("h-sync", "traits-c02"),
+               _s("h-sync", "c02", profile="nochk", name="c02-nochk", args=["--lite"]),
+               _s("h-sync", "c02", bin="h-sync-feat", features=["allfeat"], name="c02-all-tiny-std-features", args=["--lite"]),
                _s("h-sync", "c02", bin="h-sync-wide", features=["wide"], name="c02-many-threads")],
         assumptions=["same execution model as C01", "bounds: <=4 threads, <=2 ops per thread"],
     ),
     "C10": dict(
         level="exploration",
         technique="bounded-exhaustive enumeration of all byte strings / pairs over a 4-letter alphabet through the real constructors (no sampling)",
-        steps=[_s("h-str", "c10"), _s("h-fs", "readdir", name="dirent-names")],
+        steps=[_s("h-str", "c10"), _s("h-str", "c10", profile="nochk", name="c10-nochk"), _s("h-fs", "readdir", name="dirent-names")],
         assumptions=["alphabet {NUL,'/','a',0xFF} is representative for code that only distinguishes NUL, '/', and other bytes",
                      "directory-entry names: the readdir step of the C14 harness applies the same raw-slice oracle to DirEntry::file_unix_name (keys C10:DirEntry::...)"],
     ),
     "C11": dict(
         level="exploration",
         technique="bounded-exhaustive enumeration of all operand pairs over {a,b,/,.} against naive byte-slice definitions, operands against guard pages",
-        steps=[_s("h-str", "c11")],
+        steps=[_s("h-str", "c11"), _s("h-str", "c11", profile="nochk", name="c11-nochk")],
         assumptions=["the code under test distinguishes only '/' , NUL and equality of bytes, so a 4-letter alphabet exercises every comparison outcome"],
     ),
 
@@ -100,8 +105,10 @@ PROPS = {
     "C17": dict(
         level="model_checking",
         technique="explicit-state BFS over all interleavings of application steps (the real IoUring methods, via hook H1) and simulated kernel steps, from every start value of the ring counters incl. wrap; invariants on every state",
-        steps=[_s("h-ring", None, name="ring"), _s("h-ring", None, name="ring-nochk", profile="nochk"), _s("h-uring", "ringflags", name="real-rings")],
+        steps=[_s("h-ring", None, name="ring"), _s("h-ring", None, name="ring-nochk", profile="nochk"), _s("h-uring", "ringflags", name="real-rings"),
+               _s("h-uring", "poll", bin="h-uring-poll", profile="ltofat", name="polling-reaper-ltofat")],
         assumptions=["kernel side simulated at call granularity (consume 1/all, post 1/all); the index array is the identity as set up by setup_io_uring",
+                     "polling-reaper step (fat-LTO build): an application that busy-polls get_next_cqe / get_next_sqe_slot with no system call in the loop must observe an asynchronous completion / freed slot: binds 'the ring words are read with real atomics' to what the optimiser may do (compiler-dependent, this toolchain only)",
                      "real-rings step: rings made by the real setup_io_uring for every entry-size flag combination (with and without SQPOLL), sizes 1..8, every start slot x every sequence of batch lengths, NOP entries against the real kernel: binds the model's set-up assumption (identity index array, entry sizes) to the code",
                      "bounded by 2*entries+6 application operations per state space; ring sizes 1,2,4 (thorough: 8)"],
     ),
@@ -120,14 +127,15 @@ PROPS = {
         level="fault_enumeration",
         technique="forced-value fault enumeration over the syscall seam (SUD) on the real rusl wrappers; exhaustive over all errno values and the stated success value sets; wrapper table checked against a build-time source scan",
         steps=[_s("h-sys", "c09")],
-        assumptions=["per wrapper one invocation with fixed harmless arguments plus argument-shape variants (#eq: equal descriptors / paths, #len0: empty slices and zero counts; mount with and without data, nanosleep with and without rem); a branch keyed on some other argument value is not entered; every issued call must be the wrapper's own system call number",
+        assumptions=["per wrapper one invocation with fixed harmless arguments plus argument-shape variants (#eq: equal descriptors / paths, #len0: empty slices and zero counts, #param=label: each scalar parameter in turn at the special values of its type: -1/0/MIN/MAX, empty/all flag bits, None/Some(0)/Some(MAX), every enum variant; generated from a signature scan, a parameter without entry is a machinery failure); one parameter at a time; a branch keyed on some other constant is not entered; every issued call must be the wrapper's own system call number",
                      "the suppressed kernel's out-parameters are zero/plausibly filled by the plan (pipe2 fds 3,4)",
                      "process::exit (never returns) and the composite setup_io_uring are excluded; wrappers without an error channel only get non-error values"],
     ),
     "C12": dict(
         level="fault_enumeration",
         technique="fault enumeration over the syscall seam: every descriptor-creating scenario re-run with each of its system calls failing (each errno class; all pairs in the thorough tier), parent and forked child; shadow descriptor/mapping table cross-checked with /proc/self/fd",
-        steps=[_s("h-fd", "c12")],
+        steps=[_s("h-fd", "c12"),
+               _s("h-fd-noalloc", "c12-noalloc", bin="h-fd-noalloc", cwd="/verif/engines/h-fd/noalloc", name="c12-noalloc")],
         assumptions=["a descriptor handed to Command via Stdio::RawFd is consumed by spawn (closing it is accepted)",
                      "short transfer counts, munmap failures and triples of faults are not enumerated"],
     ),
